@@ -84,6 +84,10 @@ func decodeCode(r *bytes.Reader, codeSectionStart uint64, ret *wasm.Code) (err e
 	}
 
 	bodyOffsetInCodeSection := codeSectionStart - uint64(r.Len())
+	if remaining > int64(r.Len()) {
+		return fmt.Errorf("read body: %w", shortRead(r))
+	}
+
 	body := make([]byte, remaining)
 	if _, err = io.ReadFull(r, body); err != nil {
 		return fmt.Errorf("read body: %w", err)
